@@ -5,5 +5,7 @@ ROOT=$(cd "$(dirname "$0")" && pwd)
 export CARGO_NET_OFFLINE=true
 cd "$ROOT/mc"
 cargo build --release --offline --bins 2>&1 | tail -3
+# C19 quick also runs on the subject built with its `fast` feature set
+cargo build --release --offline --quiet --target-dir "$ROOT/mc/target-fast" --bin c19 --features fast 2>&1 | tail -3
 python3 -c "import fractions, sys; print('python3', sys.version.split()[0], 'ok')"
 echo "setup ok"
